@@ -228,21 +228,26 @@ def run(pid, tier, seed, args, t0):
         t_all = time.time()
         budget_all = 420 if tier == 'quick' else 2400  # ... and per check
         for q, names in sorted(by_fn.items()):
+            if any(n not in known_names for n in refuted):
+                break       # a violation that is not a known finding is already established: it decides the check
             t_fn = time.time()
             found_new = False
-            for K in (2, 3):
+            for K, unmerged in ((2, False), (2, True), (3, False)):
                 todo = [n for n in names if n not in refuted]
                 if not todo or found_new or time.time() - t_fn > budget or time.time() - t_all > budget_all:
                     break
                 # path by path (no state merging): one conjunctive query per path is far easier to satisfy than the merged
                 # formula; fall back to the merged form when the paths are too many
                 from pyvc import state as _state
-                _state.NO_MERGE[:] = [True, time.time() + (90 if tier == 'quick' else 300)]        # (flag, deadline of the unmerged exploration)
-                try:
-                    frb = eng.verify_function(q, bound=K)
-                finally:
-                    _state.NO_MERGE[:] = [False]
-                if frb.error or len(frb.obligations) > 6000:
+                if unmerged:
+                    _state.NO_MERGE[:] = [True, time.time() + (60 if tier == 'quick' else 300)]       # (flag, deadline of the unmerged exploration)
+                    try:
+                        frb = eng.verify_function(q, bound=K)
+                    finally:
+                        _state.NO_MERGE[:] = [False]
+                    if frb.error or len(frb.obligations) > 6000:
+                        continue
+                else:
                     frb = eng.verify_function(q, bound=K)
                 if frb.error:
                     break
@@ -519,7 +524,7 @@ def _verify_worker(job):
             nforeign += 1
             continue
         keep.append(o)
-    res = solve.discharge(keep, tier, cross=(tier == 'thorough'), procs=nthreads, threads=True)
+    res = _discharge_grouped(keep, tier, nthreads)
     s = z3.Solver()
     s.set('timeout', 5000)
     s.add(*getattr(fr, 'pre', []))
@@ -530,6 +535,33 @@ def _verify_worker(job):
             'obligations': [{'name': o.name, 'kind': o.kind,
                              'info': {'trace': o.info.get('trace'), 'trivial': o.info.get('trivial', False)},
                              'smt2_tail': getattr(o, 'smt2', '')[-600:], 'result': r} for o, r in zip(keep, res)]}
+
+
+def _discharge_grouped(keep, tier, nthreads):
+    """an obligation NAME is discharged only if every path instance is; so: one z3 pass over all instances, then the slower
+    back ends on the instances still open -- but as soon as one instance of a name stays open, the other open instances of
+    that name are not pursued (their verdict cannot change the name's)"""
+    first = solve.discharge(keep, 'screen' if tier == 'quick' else tier, cross=(tier == 'thorough'), procs=nthreads, threads=True)
+    if tier != 'quick':
+        return first
+    res = list(first)
+    open_idx = [i for i, r in enumerate(res) if r['verdict'] != 'unsat']
+    failed_names = set(keep[i].name for i in open_idx if res[i]['verdict'] == 'sat')
+    by_name = {}
+    for i in open_idx:
+        if keep[i].name not in failed_names:
+            by_name.setdefault(keep[i].name, []).append(i)
+    pending = {n: list(ix) for n, ix in by_name.items()}
+    while pending:
+        batch = [(n, ix.pop(0)) for n, ix in pending.items()]
+        out = solve.discharge([keep[i] for _, i in batch], 'quick', procs=max(2, nthreads), threads=True)
+        for (n, i), r in zip(batch, out):
+            r['tried'] = res[i]['tried'] + r['tried']
+            r['seconds'] += res[i]['seconds']
+            res[i] = r
+            if r['verdict'] != 'unsat' or not pending[n]:
+                del pending[n]      # open whatever the remaining instances say / all instances done
+    return res
 
 
 def _verified_anywhere():
